@@ -216,6 +216,8 @@ func init() {
 			"the cooperative scheduler does not model hardware memory ordering; unsynchronised accesses to package-level variables are found by the happens-before analysis of each explored execution, those to heap objects by the race detector (free-running pass, sampling)",
 			"write classification is syntactic: assignment to the variable or its elements/fields (also through a local obtained by & or slicing), ++/--, delete/copy/clear, its address passed to a call, a method call other than Len/Cap/String/Bytes/Error on a variable that is neither a sync object nor of a third-party type; a write through a local loaded by index or field selection is not attributed to the variable",
 		},
-		Finish: func(m *core.Merged, cov map[string]any) { cov["distinct_nontrivial"] = m.Counters["scenarios_with_scheduling_points"] },
+		Finish: func(m *core.Merged, cov map[string]any) {
+			cov["distinct_nontrivial"] = m.Counters["scenarios_with_scheduling_points"]
+		},
 	})
 }
